@@ -166,16 +166,26 @@ harness!(name=c18_uniform_update, prop=C18, mode=R, kind=normal, tier=quick, unw
     let s2 = f.sample();
     crate::vclose!(s1, s2, 1e-9, "sample after update");
 });
+// @bound c18_duniform_update: integer bounds in [-20, 40] before and after (the range in which the interpreter spells Rust's float->integer `as` conversion as a linear comparison chain), every relative position of the two intervals, mass at every k in [-60, 60]
+// @claim c18_duniform_update: a bulk update to any valid integer pair succeeds whatever the previous bounds were and gives the fresh object's mass function, mean and variance (R)
 harness!(name=c18_duniform_update, prop=C18, mode=R, kind=normal, tier=quick, unwind=8, {
     let (a0, w0, a1, w1) = (inp::i64(0), inp::i64(1), inp::i64(2), inp::i64(3));
-    vassume!(a0 >= -1000 && a0 <= 1000 && w0 >= 0 && w0 <= 1000 && a1 >= -1000 && a1 <= 1000 && w1 >= 0 && w1 <= 1000);
+    vassume!(a0 >= -20 && a0 <= 20 && w0 >= 0 && w0 <= 20 && a1 >= -20 && a1 <= 20 && w1 >= 0 && w1 <= 20);
     let mut d = DiscreteUniform::new(a0, a0 + w0);
     d.update(&[a1 as f64, (a1 + w1) as f64]);
     let f = DiscreteUniform::new(a1, a1 + w1);
     let k = inp::i64(90);
-    vassume!(k >= -3000 && k <= 3000);
+    vassume!(k >= -60 && k <= 60);
     crate::vclose!(d.pmf(k), f.pmf(k), 1e-15, "pmf after update");
     crate::vclose!(d.mean(), f.mean(), 1e-9, "mean after update");
+});
+// the variance (a product of two integer-valued terms) separately: one nonlinear obligation per query
+harness!(name=c18_duniform_update_var, prop=C18, mode=R, kind=normal, tier=quick, unwind=8, {
+    let (a0, w0, a1, w1) = (inp::i64(0), inp::i64(1), inp::i64(2), inp::i64(3));
+    vassume!(a0 >= -20 && a0 <= 20 && w0 >= 0 && w0 <= 20 && a1 >= -20 && a1 <= 20 && w1 >= 0 && w1 <= 20);
+    let mut d = DiscreteUniform::new(a0, a0 + w0);
+    d.update(&[a1 as f64, (a1 + w1) as f64]);
+    let f = DiscreteUniform::new(a1, a1 + w1);
     crate::vclose!(d.var(), f.var(), 1e-6, "variance after update");
 });
 // @claim c18_binomial: setters and update of Binomial (integer n, real p)
